@@ -384,6 +384,7 @@ let suite_nvm file =
   let evals = ref 0 and creates = ref 0 and recovers_ok = ref 0 and refused = ref 0 and gets = ref 0 and hist = ref 0 in
   let distinct = Hashtbl.create 10000 in
   let insts : (string, inst) Hashtbl.t = Hashtbl.create 100 in
+  let nc_failed : (string, unit) Hashtbl.t = Hashtbl.create 100 in
   iter_lines file (fun line ->
       match split line with
       | "G" :: r -> set_geometry r
@@ -422,9 +423,13 @@ let suite_nvm file =
            | [ "err"; "init" ] ->
                incr refused;
                (* a region that holds an instance of exactly this size must be recovered *)
-               if recover && (hmn =! nVM_MAGIC) && (hfn =! (zn -! ni 1)) && ((basen %! (f *! tF g)) =! n0) then
+               if recover && (hmn =! nVM_MAGIC) && (hfn =! (zn -! ni 1)) && ((basen %! (f *! tF g)) =! n0) then begin
+                 Hashtbl.replace nc_failed id ();
                  report "ORACLE" (Printf.sprintf "NvmAlloc::create refused to recover an instance of the same size: %s" ctx)
-           | _ -> report "ORACLE" (Printf.sprintf "NvmAlloc::create %s" ctx))
+               end
+           | _ ->
+               Hashtbl.replace nc_failed id ();
+               report "ORACLE" (Printf.sprintf "NvmAlloc::create %s" ctx))
       | [ "NG"; id; frame; order ] ->
           incr evals;
           incr gets;
@@ -449,7 +454,10 @@ let suite_nvm file =
           incr hist;
           Hashtbl.replace distinct ("NS " ^ id) ();
           let ctx = Printf.sprintf "id=%s managed=%s held=%s free/huge before=%s/%s after recover=%s/%s after frees=%s" id managed held fb hb fa ha fin in
-          if fa = "-" then report "ORACLE" ("recover of a created instance failed: " ^ ctx)
+          if fa = "-" then begin
+            (* already reported with the NC line when the recover panicked *)
+            if not (Hashtbl.mem nc_failed id) then report "ORACLE" ("recover of a created instance failed: " ^ ctx)
+          end
           else begin
             let m = int_of_string managed and h = int_of_string held in
             if int_of_string fa <> m - h || fa <> fb || ha <> hb then report "ORACLE" ("recovered allocation state differs: " ^ ctx);
@@ -457,7 +465,7 @@ let suite_nvm file =
           end
       | "NP" :: r ->
           incr evals;
-          report "ORACLE" ("panic during the history: " ^ String.concat " " r)
+          report "ORACLE" ("panic during the history: id=" ^ String.concat " " r)
       | "HFAIL" :: r -> report "ORACLE" ("harness: " ^ String.concat " " r)
       | [] -> ()
       | _ -> failwith ("nvm: bad line " ^ line));
